@@ -110,8 +110,8 @@ def _observe(job):
                     h0 = np.asarray(c.partial_derivative(X), dtype=float).copy()
                     h1 = np.asarray(c.partial_derivative(X[:, ::-1].copy()), dtype=float).copy()
                     for h in (h0, h1):
-                        h[h == 0] = EPSILON
-                        h[h == 1] = 1 - EPSILON
+                        h[h <= 0] = EPSILON
+                        h[h >= 1] = 1 - EPSILON
                     d['h0'] = C.tol_id('col', P.canon(h0), RT)
                     d['h1'] = C.tol_id('col', P.canon(h1), RT)
                 else:
@@ -125,8 +125,12 @@ def _observe(job):
                 row.append(d)
             rec['trees'].append(row)
         # likelihood: term structure and determinism (also across allocator poisons)
-        for q in range(3):
+        for q in range(5):
             u = rs.uniform(0.08, 0.92, size=n)
+            if q == 3:          # far from the diagonal of every strongly dependent pair: tiny densities
+                u = np.where(np.arange(n) % 2 == 0, 0.03, 0.97) + rs.uniform(-0.01, 0.01, size=n)
+            elif q == 4:
+                u = rs.choice([0.002, 0.5, 0.998], size=n)
             uu = np.array([u])
             with np.errstate(all='ignore'):
                 poison([(n, n), (1, n - 1), (1, max(1, len(m.trees)))], 0.0)
@@ -148,9 +152,17 @@ def _observe(job):
             elif n == 2 and nsample >= 200:
                 from scipy import stats
                 eps = math.sqrt(math.log(2.0 / 1e-10) / (2.0 * nsample))
+                rec['tails'] = [0, 0, 0]
                 for j in range(2):
                     x = np.sort(s.iloc[:, j].to_numpy())
                     F = m.unis[j].cumulative_distribution(x)
+                    # the fitted marginals are continuous: a value drawn three times is an atom; the mass beyond the 1 % / 99 %
+                    # points is pooled over the run (Acceptance band in run())
+                    if np.max(np.unique(x, return_counts=True)[1]) >= 3:
+                        rec['sample'] = 'sample-has-an-atom-although-the-marginal-is-continuous'
+                    rec['tails'][0] += int(np.sum(F < 0.01))
+                    rec['tails'][1] += int(np.sum(F > 0.99 + 1e-9))
+                    rec['tails'][2] += int(len(F))
                     ks = max(np.max(np.abs(F - np.arange(1, nsample + 1) / nsample)),
                              np.max(np.abs(F - np.arange(0, nsample) / nsample)))
                     if ks > eps + 0.02:
@@ -174,11 +186,11 @@ def run(ctx):
                 'select_copula are the terms the specification prescribes (marginal CDF columns / the parent h-function of the '
                 'right variable, in order), that the stored family/theta is what select_copula returns for them, and that the '
                 'stored pseudo-observations are the h-functions of that copula on those inputs, inside (0,1); get_likelihood is '
-                'compared with the VineLik term sum on 3 rows per model, twice under different allocator poisons; sample() '
-                'schema on every model, marginal / Kendall-tau acceptance bands on two-column tables.  non-trivial = a model '
+                'compared with the VineLik term sum on 5 rows per model (two of them far from the diagonal), twice under different allocator poisons; sample() '
+                'schema on every model; marginal / Kendall-tau acceptance bands, absence of atoms and pooled tail mass on two-column tables.  non-trivial = a model '
                 'with >= 2 trees, or a two-column model with the statistical sampling check; distinct by (type, n, truncation, table)')
     ctx.assumptions = ['arrays are identified by equivalence classes at rtol 1e-9', 'edge creation order = order of select_copula calls',
-                       'sampling bands: DKW at 1e-10 + 0.02 for marginals, 6.5 sigma + 0.05 for Kendall tau (n=300; thorough 1200)']
+                       'sampling bands: DKW at 1e-10 + 0.02 for marginals, 6.5 sigma + 0.05 for Kendall tau (n=1500; thorough 6000); a value drawn three times is an atom; pooled mass beyond the 1 % / 99 % points of the fitted marginals 0.01 +- 0.0035 (>= 27000 values: false-alarm probability < 1e-6)']
     # the term-graph rule is only meaningful on well-formed vines: re-establish the design facts it relies on
     from .C16 import MC_CFG
     for n, vt in ((4, 'regular'), (5, 'regular'), (5, 'direct'), (5, 'center')):
@@ -192,16 +204,16 @@ def run(ctx):
         trunc = int(rs.choice([1, 2, n - 1 if n > 2 else 1, n]))
         for vt in ('center', 'direct', 'regular'):
             jobs.append((n, pattern, vt, max(1, trunc), ctx.seed * 15485863 + i, 3))
-    for i in range(4 if quick else 30):
+    for i in range(9 if quick else 30):
         pattern = ('chain', 'mixed-sign', 'factor', 'near-dup', 'monotone')[i % 5]
-        jobs.append((2, pattern, ('center', 'direct', 'regular')[i % 3], 1, ctx.seed * 32452843 + i, 300 if quick else 1200))
+        jobs.append((2, pattern, ('center', 'direct', 'regular')[i % 3], 1, ctx.seed * 32452843 + i, 1500 if quick else 6000))
     jobs.sort(key=lambda j: -j[5] * 10 - j[0])
     with Pool(16) as pool:
         log = pool.map(_observe, jobs, chunksize=1)
     wd = T.workdir()
     try:
         tf = os.path.join(wd, 'flow.json')
-        T.dump_json(tf, [{k: v for k, v in r.items() if k not in ('src', 'sample_stats')} for r in log])
+        T.dump_json(tf, [{k: v for k, v in r.items() if k not in ('src', 'sample_stats', 'tails')} for r in log])
         cfg = 'SPECIFICATION Spec\nCONSTANTS\n  N = 2\n  VType = "regular"\n  Trunc = 1\nINVARIANT TraceChecked\nCHECK_DEADLOCK FALSE\n'
         r = T.run('VineFlow', cfg, workers=1, env={'TRACE_FILE': tf}, timeout=1500)
         ctx.note_tlc('VineFlow', r)
@@ -211,6 +223,17 @@ def run(ctx):
     finally:
         import shutil
         shutil.rmtree(wd, ignore_errors=True)
+    # mass of the sampled columns beyond the 1 % and 99 % points of their fitted marginals, pooled over the two-column models
+    from .. import accept as A
+    tl = [sum(r.get('tails', [0, 0, 0])[k] for r in log) for k in range(3)]
+    ctx.extra['sampled_values_beyond_1pct_99pct'] = tl
+    if tl[2] >= 20000:
+        arecs = [A.band('lower tail mass of sampled columns (F < 0.01)', tl[0] / tl[2], 0.01, 0.0035),
+                 A.band('upper tail mass of sampled columns (F > 0.99)', tl[1] / tl[2], 0.01, 0.0035)]
+        for i in A.evaluate(ctx, 'Acceptance.vine-sample-tails', arecs):
+            ctx.violation('C17|sample|tail-mass-of-sampled-columns-differs-from-fitted-marginals|%s' % ('lower', 'upper')[i],
+                          '%s: observed %.5f expected 0.01 (band 0.0035) over %d sampled values of two-column models' % (arecs[i]['id'], (tl[0], tl[1])[i] / tl[2], tl[2]),
+                          {'tails': tl})
     ctx.traces += len(log)
     ctx.extra['edges_checked'] = sum(len(t) for r in log for t in r['trees'])
     ctx.extra['likelihood_rows'] = sum(len(r['lik']) for r in log)
